@@ -117,7 +117,10 @@ static int c3_errno_in(int e, int mask)
     if ((mask & EM_BADMSG) && e == EBADMSG) return 1;
     if ((mask & EM_DOM) && e == EDOM) return 1;
     if ((mask & EM_PROTO) && e == ENOPROTOOPT) return 1;
-    if ((mask & EM_SYS) && e != 0) return 1;
+    /* a system errno is not one of the classes libvna assigns itself */
+    if ((mask & EM_SYS) && e != 0 && e != EINVAL && e != EDOM &&
+	    e != EBADMSG && e != ENOPROTOOPT)
+	return 1;
     return 0;
 }
 
